@@ -23,11 +23,11 @@ const Top = "⊤"
 
 // Config is one abstract configuration.
 type Config struct {
-	Fields map[string]string // tracked field -> constant (exact string) or Top
-	Atoms  map[string]bool   // named guard atoms currently decided (dropped when a field they read is written)
-	Hist   map[string]bool   // every atom decided on this path (first decision), kept for labelling the result
+	Fields map[string]string    // tracked field -> constant (exact string) or Top
+	Atoms  map[string]bool      // named guard atoms currently decided (dropped when a field they read is written)
+	Hist   map[string]bool      // every atom decided on this path (first decision), kept for labelling the result
 	alias  map[string]ssa.Value // tracked field -> the (unresolved) SSA value last stored into it
-	Acts   map[string]bool   // action labels executed
+	Acts   map[string]bool      // action labels executed
 	locals map[ssa.Value]string
 	phiSrc map[*ssa.Phi]ssa.Value // nil-or-value φs: the non-nil incoming value on this path
 }
@@ -118,8 +118,8 @@ func (c *Config) AtomList() []string {
 
 // Spec parameterises the analysis for one receiver type.
 type Spec struct {
-	Recv    *types.Named    // struct type whose fields are tracked
-	Fields  map[string]bool // names of tracked fields
+	Recv   *types.Named    // struct type whose fields are tracked
+	Fields map[string]bool // names of tracked fields
 	// Atom names a branch condition worth recording (position-free), with the receiver fields it reads.
 	Atom func(cond ssa.Value) (name string, fields []string, ok bool)
 	// Action labels a call ("" = none).  Called for every call instruction, before inlining; resolve evaluates a
